@@ -1389,7 +1389,20 @@ class FortranFile:
             if file_ast.end_scope_regex is not None:
                 match = FRegex.END_WORD.match(line_no_comment)
                 # Handle end statement
+                closes_do = (
+                    file_ast.current_scope is not None
+                    and file_ast.current_scope.get_type() == DO_TYPE_ID
+                )
                 if self.parse_end_scope_word(line_no_comment, line_no, file_ast, match):
+                    # A labelled END DO is the terminal statement of the DO loop
+                    # that names its label, the label is no longer pending
+                    if (
+                        closes_do
+                        and line_label is not None
+                        and block_id_stack
+                        and block_id_stack[-1] == line_label
+                    ):
+                        block_id_stack.pop()
                     continue
                 # Look for old-style end of DO loops with line labels
                 if self.parse_do_fixed_format(
